@@ -37,7 +37,17 @@ const (
 	cForEach         = 15
 	cWorker          = 16
 	cGenerateAbort   = 17 // GenerateParallel whose generator ends with a real error: an ABORTED run
+	cShared          = 18 // several fan-out stages draining ONE channel-backed (concurrency-safe) iterator
 )
+
+// kinds of fan-out stage of a shared-input case
+const (
+	shForEach = 0 // itertool.ParallelForEach pools (ProcessParallel -> Split)
+	shSplit   = 1 // Split(w), one reader goroutine per output
+	shMap     = 2 // fun.Map with w workers, one reader
+)
+
+var shNames = []string{"ParallelForEach", "Split", "Map"}
 
 // how the generator of a GenerateParallel case reports that it has no more values
 const (
@@ -48,11 +58,10 @@ const (
 
 var errGenerator = errors.New("generator failed")
 
-
 var names = map[int]string{
 	cSplit: "Split", cProcessParallel: "ProcessParallel", cMap: "Map", cParallelBuffer: "ParallelBuffer",
 	cBuffer: "Buffer", cMerge: "MergeIterators", cGenerate: "GenerateParallel", cReadOne: "ReadOne",
-	cForEach: "ParallelForEach", cWorker: "Worker", cGenerateAbort: "GenerateParallel",
+	cForEach: "ParallelForEach", cWorker: "Worker", cGenerateAbort: "GenerateParallel", cShared: "shared-input",
 }
 
 type Case struct {
@@ -64,8 +73,11 @@ type Case struct {
 	Cap       int     `json:"cap"`
 	Procs     int     `json:"gomaxprocs"`
 	Jitter    uint64  `json:"jitter"`
-	End       int     `json:"end"`  // GenerateParallel: endEOF / endWrapped / endFailure
-	Race      bool    `json:"race"` // GenerateParallel: the call producing the last value is still running when another call reports the end
+	End       int     `json:"end"`              // GenerateParallel: endEOF / endWrapped / endFailure
+	Race      bool    `json:"race"`             // GenerateParallel: the call producing the last value is still running when another call reports the end
+	Stages    int     `json:"stages,omitempty"` // shared-input: number of fan-out stages over the one input
+	Kind      int     `json:"kind,omitempty"`   // shared-input: shForEach / shSplit / shMap
+	Count     int     `json:"count,omitempty"`  // shared-input: the input is 0..count-1 (not stored in Input)
 }
 
 const runBound = 20 * time.Second
@@ -179,6 +191,10 @@ func drain(ctx context.Context, it *fun.Iterator[int64], c Case, out *bag, site 
 }
 
 type result struct {
+	Lost      int     `json:"lost,omitempty"`       // shared-input: values nobody got
+	Dup       int     `json:"duplicated,omitempty"` // shared-input: extra deliveries
+	Invented  int     `json:"invented,omitempty"`   // shared-input: values outside the input
+	Sample    []int64 `json:"sample,omitempty"`     // shared-input: the first few lost / duplicated values
 	Delivered []int64 `json:"delivered"`
 	TimedOut  bool    `json:"timed_out"`
 	Err       string  `json:"err,omitempty"`
@@ -193,6 +209,9 @@ func runCase(c Case) result {
 	ctx, cancel := context.WithTimeout(context.Background(), runBound)
 	defer cancel()
 
+	if c.Construct == cShared {
+		return runShared(ctx, c)
+	}
 	out := &bag{}
 	errc := make(chan error, 1)
 	go func() { errc <- body(ctx, c, out) }()
@@ -206,6 +225,91 @@ func runCase(c Case) result {
 	if err != nil {
 		res.Err = err.Error()
 	}
+	return res
+}
+
+// runShared: c.Stages fan-out stages of one kind drain ONE channel-backed iterator at the same time. The
+// iterator is safe for concurrent ReadOne, so every value must reach exactly one worker of exactly one
+// stage: the union of what the stages processed is the input.
+func runShared(ctx context.Context, c Case) result {
+	n := c.Count
+	ch := make(chan int64, 256)
+	go func() {
+		defer close(ch)
+		for v := 0; v < n; v++ {
+			select {
+			case ch <- int64(v):
+			case <-ctx.Done():
+				return
+			}
+		}
+	}()
+	src := fun.ChannelIterator(ch)
+	counts := make([]atomic.Int32, n)
+	var invented atomic.Int64
+	record := func(v int64) {
+		if v < 0 || int(v) >= n {
+			invented.Add(1)
+			return
+		}
+		counts[v].Add(1)
+	}
+	opt := fun.WorkerGroupConfNumWorkers(c.Workers)
+	drainTo := func(it *fun.Iterator[int64]) {
+		for {
+			v, err := it.ReadOne(ctx)
+			if err != nil {
+				return
+			}
+			record(v)
+		}
+	}
+	var wg sync.WaitGroup
+	for p := 0; p < c.Stages; p++ {
+		wg.Add(1)
+		go func() {
+			defer wg.Done()
+			switch c.Kind {
+			case shSplit:
+				var inner sync.WaitGroup
+				for _, o := range src.Split(c.Workers) {
+					inner.Add(1)
+					go func(o *fun.Iterator[int64]) { defer inner.Done(); drainTo(o) }(o)
+				}
+				inner.Wait()
+			case shMap:
+				drainTo(fun.Map(src, func(_ context.Context, v int64) (int64, error) { return v, nil }, opt))
+			default:
+				_ = itertool.ParallelForEach(ctx, src, func(_ context.Context, v int64) error { record(v); return nil }, opt)
+			}
+		}()
+	}
+	done := make(chan struct{})
+	go func() { wg.Wait(); close(done) }()
+	res := result{}
+	select {
+	case <-done:
+	case <-time.After(runBound + 5*time.Second):
+		res.TimedOut, res.Err = true, "run did not return"
+	}
+	if ctx.Err() != nil {
+		res.TimedOut = true
+	}
+	for v := 0; v < n; v++ {
+		switch k := int(counts[v].Load()); {
+		case k == 0:
+			res.Lost++
+			if len(res.Sample) < 8 {
+				res.Sample = append(res.Sample, int64(v))
+			}
+		case k > 1:
+			res.Dup += k - 1
+			if len(res.Sample) < 8 {
+				res.Sample = append(res.Sample, int64(v))
+			}
+		}
+	}
+	res.Invented = int(invented.Load())
 	return res
 }
 
@@ -360,6 +464,20 @@ func ordered(c Case) bool { return c.Construct == cBuffer || c.Workers == 1 }
 
 // oracle returns "" or the violation class and a description.
 func oracle(c Case, r result) (string, string) {
+	if c.Construct == cShared {
+		what := fmt.Sprintf("%d %s stage(s) x %d workers over one channel-backed iterator of %d distinct values", c.Stages, shNames[c.Kind], c.Workers, c.Count)
+		switch {
+		case r.TimedOut:
+			return "lost", "run did not finish within " + runBound.String() + ": " + what
+		case r.Invented > 0:
+			return "invented", fmt.Sprintf("%d value(s) outside the input were processed: %s", r.Invented, what)
+		case r.Dup > 0:
+			return "duplicated", fmt.Sprintf("%d extra deliveries (and %d values lost), e.g. %v: %s", r.Dup, r.Lost, r.Sample, what)
+		case r.Lost > 0:
+			return "lost", fmt.Sprintf("%d values reached nobody, e.g. %v: %s", r.Lost, r.Sample, what)
+		}
+		return "", ""
+	}
 	if r.TimedOut {
 		return "lost", fmt.Sprintf("run did not finish within %v (delivered %d of %d): %s", runBound, len(r.Delivered), len(c.Input), r.Err)
 	}
@@ -405,6 +523,14 @@ func execCase(run *kit.Run, c Case, verbose bool) {
 	}
 	if cls != "" {
 		run.OracleFail(c.ID, "C01:"+c.Name+":"+cls, detail, c, r)
+	}
+	if c.Construct == cShared {
+		run.Count(c.Name)
+		run.Count(fmt.Sprintf("stages=%d", c.Stages))
+		term := fmt.Sprintf("C01Shared %s %s %s %s %s %s %s %s %s", kit.ZI(c.ID), kit.ZI(c.Stages), kit.ZI(c.Kind), kit.ZI(c.Workers), kit.ZI(c.Count),
+			kit.ZI(r.Lost), kit.ZI(r.Dup), kit.ZI(r.Invented), kit.Bool(!r.TimedOut))
+		run.Case(c.ID, c, term, fmt.Sprintf("shared|%d|%d|%d|%d", c.Stages, c.Kind, c.Workers, c.Count), true)
+		return
 	}
 	run.Count(c.Name)
 	run.Count("len" + bucket(len(c.Input)))
@@ -452,7 +578,7 @@ func main() {
 	run.Header = "From FunV Require Import Base.Tac Corr.C01_corr."
 	run.Footer = "Definition M := Eval vm_compute in mismatches cases.\nPrint M."
 	run.CaseType = "case"
-	run.Rule = "every construct (Split, ProcessParallel, ParallelForEach, Worker, Map, ParallelBuffer, Buffer, MergeIterators, GenerateParallel, concurrent ReadOne) x workers {1,2,3,8} x lengths {0,1,2,w-1,w,w+1,7,16,33,64} x buffer sizes {0,1,len} (Buffer, ReadOne) x GOMAXPROCS {1,2,4,8} x seeded Gosched/sleep jitter in every user function; Map additionally with 2000 distinct items, 4/8 workers, GOMAXPROCS 8, no jitter (volume); GenerateParallel additionally x end-of-stream kind {io.EOF, error wrapping io.EOF, real error = aborted run (only no-invention/no-duplication is required)} x {free schedule, driver-controlled schedule: the call producing the last value returns only after another worker's call reported the end} x workers {2,3,8} x lengths {1,2,3,4,7}; distinct = distinct (construct, workers, cap, end kind, schedule, input); non-trivial = at least 2 items"
+	run.Rule = "every construct (Split, ProcessParallel, ParallelForEach, Worker, Map, ParallelBuffer, Buffer, MergeIterators, GenerateParallel, concurrent ReadOne) x workers {1,2,3,8} x lengths {0,1,2,w-1,w,w+1,7,16,33,64} x buffer sizes {0,1,len} (Buffer, ReadOne) x GOMAXPROCS {1,2,4,8} x seeded Gosched/sleep jitter in every user function; Map additionally with 2000 distinct items, 4/8 workers, GOMAXPROCS 8, no jitter (volume); shared-input: k in {2,4,8} fan-out stages (ParallelForEach pools / Split / Map, 2 workers each) draining ONE channel-backed iterator of 120000+ distinct values at GOMAXPROCS 8 - the union of what the stages processed must be the input; GenerateParallel additionally x end-of-stream kind {io.EOF, error wrapping io.EOF, real error = aborted run (only no-invention/no-duplication is required)} x {free schedule, driver-controlled schedule: the call producing the last value returns only after another worker's call reported the end} x workers {2,3,8} x lengths {1,2,3,4,7}; distinct = distinct (construct, workers, cap, end kind, schedule, input); non-trivial = at least 2 items"
 
 	if run.Replay != "" {
 		var c Case
@@ -535,6 +661,20 @@ func main() {
 				continue
 			}
 			execCase(run, c, false)
+		}
+	}
+	// several fan-out stages over ONE shared, concurrency-safe input: volume, distinct values
+	shCount := run.Pick(120000, 600000)
+	for round := 0; round < run.Pick(1, 4); round++ {
+		for _, stages := range []int{2, 4, 8} {
+			for kind := shForEach; kind <= shMap; kind++ {
+				c := Case{ID: id, Construct: cShared, Stages: stages, Kind: kind, Workers: 2, Count: shCount + round, Procs: 8}
+				id++
+				if run.NOracle >= 5 {
+					continue
+				}
+				execCase(run, c, false)
+			}
 		}
 	}
 	// GenerateParallel: a value that is in flight when another worker reports the end of the stream
